@@ -214,9 +214,15 @@ def run(ctx):
             live0 = CK.live + TV.live       # the keys and values of 'base' only
             cand_keys = sorted(set(rng.sample(present, min(3, len(present))) + [rng.randrange(-1, 2 * u + 1) for _ in range(2)]))
             for k in cand_keys:
-                ops = ["get", "set", "del", "range", "minkey"] + (["discard"] if setlike else ["pop"])
+                ops = ["get", "set", "del", "range", "minkey", "rangelen"] + (["discard"] if setlike else ["pop", "popitem"])
+                held = []            # a lazy sequence kept across the failing call (rangelen)
                 for op in ops:
                     def do(t, key):
+                        if op == "popitem":
+                            return t.popitem()
+                        if op == "rangelen":
+                            held[:] = [t.keys(key, CK(key.n + 5))]
+                            return len(held[0])
                         if op == "get":
                             return (key in t) if setlike else t.get(key)
                         if op == "set":
@@ -242,6 +248,7 @@ def run(ctx):
                         ref_exc = type(e).__name__
                     total = CK.count
                     probes = collapse(CK.probes)
+                    held[:] = []
                     quiet()
                     after = contents(t, setlike)
                     if op in ("get", "set", "del") and kind in ("BTree", "TreeSet", "Bucket", "Set"):
@@ -279,13 +286,18 @@ def run(ctx):
                                     bad = "partial-change"
                                 else:
                                     sound(t, kind)
+                                    if op == "rangelen" and held:
+                                        # the very sequence whose len() failed must now report its true length
+                                        if len(held[0]) != len([x for x in held[0]]):
+                                            bad = "later-ops-misbehave:len-of-the-sequence-after-failed-len"
+                                    held[:] = []
                                     # later operations behave normally
                                     nk = CK(2 * u + 3)
                                     if setlike:
                                         t.add(nk); ok = nk in t; t.remove(nk)
                                     else:
                                         t[nk] = val(1); ok = t.get(nk) == val(1); del t[nk]
-                                    if not ok or contents(t, setlike) != now:
+                                    if bad is None and (not ok or contents(t, setlike) != now):
                                         bad = "later-ops-misbehave"
                                     else:
                                         sound(t, kind)
@@ -293,6 +305,7 @@ def run(ctx):
                                 bad = "unsound:" + str(e)[:50]
                             except Exception as e:  # noqa
                                 bad = "later-ops-raise:" + type(e).__name__
+                        held[:] = []
                         if bad is None:
                             # no stored key is leaked: dropping the container frees every key object
                             t = key = nk = None
